@@ -141,6 +141,10 @@ func (w *Writer) WriteMessage(message any, codec Codec) (err error) {
 	messageDesc := QueryMessageDesc(message)
 
 	if messageDesc.IsOutside() {
+		// 未注册的消息只能依赖 Codec；未配置 Codec（默认）时返回错误，而不是对 nil 接口发起调用
+		if codec == nil {
+			return fmt.Errorf("message %T is not registered and no codec is configured", message)
+		}
 		data, encErr := codec.Encode(message)
 		if encErr != nil {
 			return encErr
